@@ -42,7 +42,8 @@ TrNeigh ==
 
 TrAdd ==
     /\ Ev.op = "add_cell_component"
-    /\ \/ /\ Ev.out = "ok" /\ AddCellComponent(Ev.name, Desc(Ev))
+    /\ \/ /\ Ev.out = "ok" /\ Ev.kind # "halve" /\ AddCellComponent(Ev.name, Desc(Ev))
+       \/ /\ Ev.out = "ok" /\ Ev.kind = "halve" /\ AddHalved(Ev.name)
        \/ /\ Ev.out \in {"TypeError", "IndexError"} /\ Ev.kind = "lookup" /\ Ev.dims < 3
           /\ AddLookup_F4(Ev.name, Desc(Ev))
     /\ ColsObs(Ev.cols) = ColsOf(cols')
